@@ -248,18 +248,28 @@ where
 
         let mls_group_id = group.mls_group_id.clone();
 
-        // Save the pending group
-        self.storage()
-            .save_group(group)
-            .map_err(|e| Error::Group(e.to_string()))?;
+        // An invitation is unconsented input: it must never overwrite (or set back to Pending)
+        // the record of a group the user is already an active member of. In that case only
+        // the welcome itself is stored; the record is brought in line with the joined state
+        // when (and if) the invitation is accepted.
+        let already_active = self
+            .get_group(&mls_group_id)?
+            .is_some_and(|existing| existing.state == group_types::GroupState::Active);
 
-        // Save the group relays
-        self.storage()
-            .replace_group_relays(
-                &mls_group_id,
-                welcome_preview.nostr_group_data.relays.clone(),
-            )
-            .map_err(|e| Error::Group(e.to_string()))?;
+        if !already_active {
+            // Save the pending group
+            self.storage()
+                .save_group(group)
+                .map_err(|e| Error::Group(e.to_string()))?;
+
+            // Save the group relays
+            self.storage()
+                .replace_group_relays(
+                    &mls_group_id,
+                    welcome_preview.nostr_group_data.relays.clone(),
+                )
+                .map_err(|e| Error::Group(e.to_string()))?;
+        }
 
         let processed_welcome = welcome_types::ProcessedWelcome {
             wrapper_event_id: *wrapper_event_id,
@@ -360,6 +370,10 @@ where
                     secret: mdk_storage_traits::Secret::new(export_secret),
                 })
                 .map_err(|e| Error::Group(e.to_string()))?;
+
+            // The stored record may describe another invitation for the same group (or the
+            // state held before): make it mirror the state that was actually joined.
+            self.sync_group_metadata_from_mls(&mls_group_id)?;
         }
 
         Ok(())
